@@ -21,6 +21,9 @@ ACTIVITIES = {
     "swallow_kbi": ("import time\nchannel.send('started')\nwhile True:\n    try:\n        while True:\n            time.sleep(0.02)\n"
                     "    except KeyboardInterrupt:\n        pass\n"),
     # SIG_IGN installed through libc so that it works from whatever thread the body happens to run in
+    # the executed code has installed its own SIGINT handler / ignores SIGINT through the signal module
+    "python_sigint_handler": "import signal, time\nsignal.signal(signal.SIGINT, lambda *a: None)\nchannel.send('started')\nwhile True:\n    time.sleep(0.05)\n",
+    "python_sigint_ign": "import signal, time\nsignal.signal(signal.SIGINT, signal.SIG_IGN)\nchannel.send('started')\nwhile True:\n    time.sleep(0.05)\n",
     "sigint_ignored": "import ctypes, time\nctypes.CDLL(None).signal(2, 1)\nchannel.send('started')\nwhile True:\n    time.sleep(0.05)\n",
     "daemon_threads": ("import threading, time\n"
                        "def spin():\n    while True:\n        time.sleep(0.01)\n"
